@@ -39,7 +39,9 @@ def main():
             return r.returncode
         if a.demo:
             print('demo without patch: exit %d' % demo())
-        subprocess.check_call(['git', '-C', d, 'apply', '--whitespace=nowarn', os.path.abspath(a.patch)])
+        if subprocess.call(['git', '-C', d, 'apply', '--whitespace=nowarn', os.path.abspath(a.patch)], stderr=subprocess.DEVNULL) != 0:
+            print('plain apply failed, using 3-way apply')
+            subprocess.check_call(['git', '-C', d, 'apply', '--3way', '--whitespace=nowarn', os.path.abspath(a.patch)])
         if a.demo:
             print('demo with patch: exit %d' % demo())
         if a.tests:
